@@ -35,8 +35,8 @@ class Tree:
         if truth:
             # "holds" = evaluates to non-zero, negative values included
             return r.choice([".if 1", ".if 5-4", ".if one", ".ifdef YES", ".ifndef NO", ".if two == 2", ".if 3 > 2", ".if -1", ".if 1-2", ".if one - two",
-                             ".if ~zero", ".if 0-255", ".if 1 << 63", ".if 256", ".if 65536", ".if low(256) + high(256)", "#if 1", ".if !zero"])
-        return r.choice([".if 0", ".if 1-1", ".if zero", ".ifdef NO", ".ifndef YES", ".if two == 3", ".if 2 > 3", ".if -0", ".if one - 1", ".if ~(0-1)",
+                             ".if ~zero", ".if 0-255", ".ifdef SHARED", ".ifdef Hash", ".ifndef shared", ".ifndef two", ".ifndef zero", "#ifdef YES", "#ifndef NO", ".if 1 << 63", ".if 256", ".if 65536", ".if low(256) + high(256)", "#if 1", ".if !zero"])
+        return r.choice([".if 0", ".if 1-1", ".if zero", ".ifdef NO", ".ifndef YES", ".if two == 3", ".if 2 > 3", ".if -0", ".if one - 1", ".ifndef SHARED", ".ifndef Hash", ".ifdef shared", ".ifdef zero", ".ifdef two", ".ifdef yes", ".if SHARED", "#ifdef NO", ".if ~(0-1)",
                          ".if low(256)", ".if 1 >> 1", "#if 0", ".if !one", ".if !(0-1)"])
 
     def elif_(self, truth):
@@ -78,7 +78,8 @@ class Tree:
         return out
 
 
-PRELUDE = [".equ one = 1", ".equ zero = 0", ".equ two = 2", ".define YES"]
+# a flag may share its name with a constant (flags live in their own table and are matched as written)
+PRELUDE = [".equ one = 1", ".equ zero = 0", ".equ two = 2", ".define YES", ".equ SHARED = 0", ".define SHARED", "#define Hash"]
 
 
 def exhaustive(rng):
